@@ -381,10 +381,20 @@ def _r1(ctx, m):
                 guard_ok = True
             if guard_ok:
                 ctx.stats["csr_sentinel"] = b["lit"][1]
-    ctx.check(same_loops and guard_ok, "R1", "single-guard", (FILE, c.line),
-              "cols.append, vals.append and the increment sit together under the single guard `entry != sentinel`",
-              expected="if elem != '0.0': cols.append(col); vals.append(elem); nnz += 1",
-              found="; ".join("&".join(("" if p else "not ") + show(x)[:60] for x, p in gg) or "<unguarded>" for gg in g))
+    # positive evidence of a wrong filter: the appends do not sit together, are unguarded, or test the entry against something else
+    # than a constant; a test on a value that is not traced to the Jacobian table is "cannot decide"
+    traced = True
+    if same_loops and not guard_ok and all(x == g[0] for x in g) and len(g[0]) == 1:
+        b_ = match(("cmp", (V("op"),), (V("e"), V("lit"))), g[0][0][0])
+        if b_ and b_["lit"][0] == "const" and not any(x == m.JAC for x in walk_(b_["e"])):
+            traced = False
+    if not traced:
+        ctx.unrec("R1", "single-guard", (FILE, c.line), f"the stored entries are filtered by a test on `{show(g[0][0][0])[:100]}`, which is not traced to the Jacobian table {m.JACNAME}")
+    else:
+        ctx.check(same_loops and guard_ok, "R1", "single-guard", (FILE, c.line),
+                  "cols.append, vals.append and the increment sit together under the single guard `entry != sentinel`",
+                  expected="if elem != '0.0': cols.append(col); vals.append(elem); nnz += 1",
+                  found="; ".join("&".join(("" if p else "not ") + show(x)[:60] for x, p in gg) or "<unguarded>" for gg in g))
     if guard_ok:
         if form == "range":
             ok = _npoly(m, slot_idx) == _npoly(m, ("binop", "Add", rowstart, colvar))
@@ -617,15 +627,25 @@ def _loop_sites(ctx, label, rel, cfg, fname, field, lhs_pat):
         ctx.check(ok, "R3", key, (rel, it[5]), f"entry n of ode.jac.{field} is written to position n (index loop over its length), unfiltered",
                   expected=f"[i] = ode.jac.{field}[i]", found=f"[{J.show(idx)}] = {J.show(flat[int(mm.group(2))][1])}")
         return
-    if J.path(J.unfilter(it[2])[0]) != f"ode.jac.{field}" or it[2][0] != "attr" or it[7] is not None:
-        ctx.bad("R3", key, (rel, it[5]), f"the loop filling this array iterates {J.show(it[2])}, not ode.jac.{field} itself",
-                expected=f"for x in ode.jac.{field}", found=J.show(it[2]))
+    var = it[1]
+    if it[2][0] == "call" and it[2][1] == ("name", "zip") and not it[2][3] and FIELD in it[2][2] and it[7] is None and it[1][0] == "tuple" \
+            and len(it[1][1]) == len(it[2][2]) and all(a_[0] == "attr" for a_ in it[2][2]):
+        # `for col, val in zip(ode.jac.cols, ode.jac.vals)`: one loop filling several arrays; each target walks its own sequence in step
+        var = it[1][1][it[2][2].index(FIELD)]
+    elif J.path(J.unfilter(it[2])[0]) != f"ode.jac.{field}" or it[2][0] != "attr" or it[7] is not None:
+        root = it[2]
+        while root[0] in ("filter", "item"):
+            root = root[2] if root[0] == "filter" else root[1]
+        # positive evidence: the array is filled from ANOTHER field of the Jacobian, or from a filtered / sliced view of its own
+        (ctx.bad if (J.path(root) or "").startswith("ode.jac.") else ctx.unrec)(
+            "R3", key, (rel, it[5]), f"the loop filling this array iterates {J.show(it[2])}, not ode.jac.{field} itself",
+            **({"expected": f"for x in ode.jac.{field}", "found": J.show(it[2])} if (J.path(root) or "").startswith("ode.jac.") else {}))
         return
     idx = flat[int(mm.group(1))][1]
     val = flat[int(mm.group(2))][1]
     base, fs = J.unfilter(val)
     ok_idx = idx == ("attr", ("name", "loop"), "index0")
-    ok_val = base == it[1] and all(f[0] in ("stmwrap",) or (f[0] == "replace" and field == "vals") for f in fs)
+    ok_val = base == var and all(f[0] in ("stmwrap",) or (f[0] == "replace" and field == "vals") for f in fs)
     ctx.check(ok_idx and ok_val, "R3", key, (rel, it[5]),
               f"entry n of ode.jac.{field} is written to position n (loop.index0), unfiltered",
               expected="[loop.index0] = entry", found=f"[{J.show(idx)}] = {J.show(val)}")
